@@ -68,14 +68,18 @@ class EquationParser(object):
             # Any usage of 'exogenous' switches over to the Exogenous block
             # I could skip this, but would need to use eval(), which is dangerous with
             # untrusted inputs.
-            if 'exogenous' in equation.lower():
-                mode = 'exogenous'
-                continue
             # Remove comments (like this one!)
+            comment = ''
             pos = equation.find('#')
             if pos > -1:
+                comment = equation[pos:]
                 equation = equation[0:pos]
             equation = equation.strip()
+            # The marker is looked for in the code part of the line, or in a stand-alone comment line
+            # (like '# Exogenous Variables'); a comment that trails an equation is just a comment.
+            if 'exogenous' in equation.lower() or (len(equation) == 0 and 'exogenous' in comment.lower()):
+                mode = 'exogenous'
+                continue
             if len(equation) == 0:
                 continue
             splitted = equation.split('=')
